@@ -256,6 +256,9 @@ def replay_event(prop, path, fam, key_of):
     if ev.get("op") == "const.audit":
         import fam_consts
         return fam_consts.replay(prop, path)
+    if ev.get("op") == "exp.machine" or ev.get("op", "").startswith("tm."):
+        import fam_tower
+        return fam_tower.replay_special(prop, path, ev)
     run = Run(prop, "quick")
     res = [x for x in rerun(run, fam, ev) if not x.startswith("diag.")]      # diag.* labels name routes, they are never violations
     if res:
